@@ -111,7 +111,9 @@ def one(M, rec, rng, g, desc, pars, st):
                     rec.violation(f"{PROP}:compact=0: parameters are not the trailing arguments in declared order",
                                   dict(ctx, names=ni))
             else:
-                if ni[-1] != "p" or ni[:-1] != list(Fn.name_in()) or Fs.size1_in(Fs.n_in() - 1) != len(keys):
+                szs = [Fs.size1_in(i) * Fs.size2_in(i) for i in range(Fs.n_in())]
+                szn = [Fn.size1_in(i) * Fn.size2_in(i) for i in range(Fn.n_in())]
+                if szs[:-1] != szn or szs[-1] != len(keys):
                     rec.violation(f"{PROP}:compact={compact}: parameters are not one trailing stacked vector 'p' of the declared size",
                                   dict(ctx, names=ni))
             if Fs.get_free():
